@@ -7,6 +7,14 @@ ROOT = os.path.dirname(os.path.dirname(os.path.abspath(__file__)))
 
 # id -> (technique, level text, level note, design ref)
 CHECKS = {
+    "C19": ("Lean 4 invariant proof over a step model of the temp-file + rename protocol, plus kill-at-crash-point / strace / concurrent-process validation",
+            "Kernel-checked, for every interleaving of any number of writers (atomic_write_file / gentle_overwrite as step programs over a names->inodes file system) and piecewise readers, every failing operation, every kill point, all data and write chunkings: the output path always holds its initial or some writer's complete contents; every reader assembles such a content; only a complete rename changes the target; a same-contents call returns Ok even if every later operation fails; an undisturbed fault-free call leaves exactly its data. Hypothesis: temp name != target name, shown necessary by a decide witness. The model is tied to the code by one child process per entry x previous state x directory mode x crash point (hook --cfg chialisp_verif) compared with the model (result, contents, hook sequence, leftovers), by strace traces mapped to the model's operation alphabet, and by 1-8 concurrent writer processes with polling readers.",
+            "POSIX rename(2) atomicity, fd->inode binding and O_EXCL are assumptions built into the model; partial writes inside write_all are seen through strace and RLIMIT_FSIZE only; durability across power loss is not claimed; the model<->code tie is differential.",
+            "DESIGN.md §4 C19"),
+    "C18": ("Lean 4 proof over a writer model of the preprocessor traversal, plus recorded read_new_file correspondence",
+            "Kernel-checked: every non-embed, non-nested-mod read is a pseudo-file or is listed; every listed name is the first match in search order and is a file actually read; the listing terminates on ranked (acyclic) include graphs without nested mods, a self-include exhausts every fuel. The full inclusion is refuted by decide witnesses: embed-file targets and includes inside a nested mod are not listed (open findings, fix diff proposed). The model is tied to the code by gather_dependencies versus recorded read_new_file calls on generated include graphs (depth 0-4, 4 dialects, up to 3 search directories, all orders) and by include-cycle cases.",
+            "Forms are abstracted to include / embed / nested-mod / other; macro-generated includes are not modelled; reads are compared as sets; the classic compiler's reads are not observable through CompilerOpts; the termination theorem is restricted to nested-mod-free programs.",
+            "DESIGN.md §4 C18"),
     "C06": ("Lean 4 simulation proofs (both directions) over a hand model of the RunStep machine + exhaustive and random correspondence with clvm::run and clvmr",
             "Kernel-checked, for every operator table agreeing with clvmr on i/c/f/r, both integer modes, any prim map: on every run that takes no flagged branch (executable predicate flagsOf = []) the stepping evaluator returns v iff consensus returns v, and fails iff consensus fails (soundness, completeness, both failure directions, fuel monotonicity). Each flagged class (((X)...) heads, operator by name, integer-is-name incl. opcodes 61/62, non-minimal operator atom, sign-padded path, zero path, legacy zero) is shown by a decide witness to break the unconditioned statement; each is an open finding. Model tied to clvm::run by all trees <= 7 nodes over the core alphabet x 3 environments, random typed programs over all modelled operators in every atom spelling, compiled programs, and deliberately flagged variants, including error classes and result spellings; the stepper-vs-clvmr oracle runs on the implementation alone.",
             "Operators are a parameter (clvmr's on both sides); cost / step limits and softfork are outside; BLS/secp/keccak/modpow/% cases are oracle-only; the nested run of ((X)...) is a parameter.",
